@@ -653,6 +653,7 @@ func TestZZVerifC09(t *testing.T) {
 	// methods; IntentionQueryMatch): they cannot produce a mixed result
 	run.FloorDistinct("types-nontrivial", len(tys)-9)
 	run.FloorDistinct("authorizer-kinds", 3)
+	run.Floor("server_blocking_cases", 18)
 	for _, c := range []string{"class_first_removed", "class_last_removed", "class_adjacent_removals", "class_all_removed", "class_none_removed", "class_duplicates", "class_nested_partial"} {
 		run.Floor(c, 1000)
 	}
